@@ -101,8 +101,8 @@ def gen(r, tier, i):
 
 def cell_shadow(key, n, deriver, tags=None):
     t = tags or key
-    c = {'led': ('P', t + '.led'), 'f1': ('P', t + '.f1'), 'f2': ('P', t + '.f2'),
-         'st': {'log': [], 'n': n, 'twice': 0, 'quad': 0}}
+    c = {'led': ('P', t + '.led'), 'f1': ('P', t + '.f1'), 'f2': ('P', t + '.f2'), 'f0': ('P', t + '.f0'),
+         'st': {'log': [], 'n': n, 'twice': 0, 'quad': 0, 'lag': 0, 'g': 0}}
     if deriver:
         c['drv'] = ('P', t + '.drv')
         c['drv2'] = ('P', t + '.drv2')
@@ -128,11 +128,13 @@ def run(spec):
     class Keeper(Process):
         def ports_schema(self):
             return {'other': {'z': {'_default': 7}, 'w': {'_default': [1, 2], '_updater': 'set'}},
-                    'L': {'*': {'_default': 5, '_updater': 'set'}}}
+                    'L': {'*': {'_default': 5, '_updater': 'set'}},
+                    # a variable that only this glob sub-schema declares for the cells of A and B
+                    'GA': {'*': {'st': {'g': {'_default': 0}}}}, 'GB': {'*': {'st': {'g': {'_default': 0}}}}}
 
         def next_update(self, timestep, states):
             return {}
-    comp.merge(processes={'keeper': Keeper({'tag': 'keeper'})}, topology={'keeper': {'other': ('other',), 'L': ('L',)}}, path=base)
+    comp.merge(processes={'keeper': Keeper({'tag': 'keeper'})}, topology={'keeper': {'other': ('other',), 'L': ('L',), 'GA': ('A',), 'GB': ('B',)}}, path=base)
     init = {'B': {}, 'L': {'l0': 1}, 'A': {a: {'st': {'n': spec['n0'][a]}} for a in ('a', 'b')}}
     for k in reversed(base):
         init = {k: init}
@@ -265,7 +267,7 @@ def run(spec):
                 c = structw.Cell(dict(cfg, agent_id=key, deriver=der if op[4] else None)).generate()
                 u.setdefault('_generate', []).append({'key': key, 'processes': c['processes'], 'steps': c['steps'],
                                                       'flow': c['flow'], 'topology': c['topology'],
-                                                      'initial_state': {'st': {'n': op[3]}}})
+                                                      'initial_state': {'st': {'n': op[3], 'g': 4}}})
                 gens.append(op)
             elif kind == 'divide':
                 if not present or '_divide' in u:
@@ -302,7 +304,7 @@ def run(spec):
         # ---- advance the shadow in the documented order: additions and moves, generates, divides, inner keys, deletions
         if not expect_raise:
             for op in adds:
-                new_shadow[op[1]][op[2]] = {'st': {'n': op[3]}}
+                new_shadow[op[1]][op[2]] = {'st': {'n': op[3], 'g': 0}}
                 touched.add((op[1], op[2]))
             for op in moves:
                 sub = new_shadow[op[1]].pop(op[2])
@@ -314,6 +316,7 @@ def run(spec):
                 touched.add((op[3], op[2]))
             for op in gens:
                 new_shadow[op[1]][op[2]] = cell_shadow(op[2], op[3], der if op[4] else None)
+                new_shadow[op[1]][op[2]]['st']['g'] = 4       # from the initial state, not the sub-schema's default
                 touched.add((op[1], op[2]))
             for op in divs:
                 m = new_shadow[op[1]].pop(op[2])
@@ -367,7 +370,7 @@ def run(spec):
             V.check('add_existing_rejected', raised is not None, lambda: ('an _add list naming one key twice was accepted', ops))
             op = ops[0]
             with_first = copy.deepcopy(shadow)
-            with_first[op[1]][op[2]] = {'st': {'n': op[3]}}
+            with_first[op[1]][op[2]] = {'st': {'n': op[3], 'g': 0}}
             got = real_tree()
             V.check('add_existing_rejected', got == shadow or got == with_first,
                     lambda: ('after the rejected duplicate _add the hierarchy is neither unchanged nor holds the first entry', _ddiff(with_first, got)))
